@@ -116,6 +116,10 @@ func evalCrashState(k int, seq int, rng *Rng, cfg Config, snap *fsSnapshot, info
 			// value in the object's file), not by where the crash happened
 			sig = fmt.Sprintf("C05|stale-index|update-window|%s|-", mode)
 		}
+		if api == "update-window" && clause == "repair-fails-on-stale-unique-value" {
+			// the same state when the stale tuple holds a unique value taken over by an unindexed file
+			sig = fmt.Sprintf("C05|repair-fails-on-stale-unique-value|update-window|%s|-", mode)
+		}
 		return &Violation{Sig: sig, Clause: clause, Api: api, Step: snap.Step,
 			Detail: fmt.Sprintf("crash after FS event %s %s of %s (step %d, %s), configuration %s\n%s", snap.Op, snap.Phase, snap.Path, snap.Step, info.kind, cfg.String(), detail),
 			Trace:  parent.trace}
@@ -160,6 +164,27 @@ func evalCrashState(k int, seq int, rng *Rng, cfg Config, snap *fsSnapshot, info
 				}
 			} else if got != info.before[u] {
 				return mk("acknowledged-state-lost", fmt.Sprintf("object %s was not touched by the interrupted call\n on disk %s\n acknowledged %s", short(u), first(got, 300), first(info.before[u], 300))), "violation"
+			}
+		}
+	}
+	// asynchronous mode: do the files themselves break a unique constraint? Pending writes are
+	// flushed in no particular order, so a crash inside a flush can persist the object that took a
+	// unique value before the object that released it (a state no sequence of accepted calls ever
+	// went through); identified, like the update window, by what the independent decoder sees
+	if cfg.Async != 0 {
+		for _, p := range cfg.uniquePathsSorted() {
+			seen := map[string]string{}
+			for u, x := range files {
+				k, ok := recKey(x, p)
+				if !ok {
+					continue
+				}
+				if o, dup := seen[k.String()]; dup && o != u {
+					v := mk("files-violate-uniqueness", fmt.Sprintf("object files %s and %s both hold %s in unique field %s: the flush wrote the object that took the value, not yet the one that released it", short(o), short(u), k, p))
+					v.Sig = fmt.Sprintf("C05|files-violate-uniqueness|flush-order|async|-")
+					return v, "violation"
+				}
+				seen[k.String()] = u
 			}
 		}
 	}
@@ -210,7 +235,11 @@ func evalCrashState(k int, seq int, rng *Rng, cfg Config, snap *fsSnapshot, info
 	}
 	if class == "reported" {
 		if w.call("Repair", func() { err = w.db.Repair(&Rec{}) }) || err != nil {
-			return mk("repair-fails", fmt.Sprintf("corruption was reported but Repair fails: %v", err)), "violation"
+			clause := "repair-fails"
+			if api == "update-window" && err != nil && sod.IsUnique(err) {
+				clause = "repair-fails-on-stale-unique-value"
+			}
+			return mk(clause, fmt.Sprintf("corruption was reported but Repair fails: %v", err)), "violation"
 		}
 		if w.call("Control", func() { err = w.db.Control() }) || err != nil {
 			return mk("control-fails-after-repair", fmt.Sprintf("%v", err)), "violation"
@@ -246,6 +275,12 @@ var c05Directed = []struct {
 	{"flush-of-pending-update-and-new", true, []string{"insA", "flushcommit", "updA", "insB", "flushall"}},
 	{"commit-with-pending-update", true, []string{"insA", "insC", "flushcommit", "updA", "delC"}},
 	{"commit-with-pending-update-and-new", true, []string{"insA", "insC", "flushcommit", "updA", "insB", "delC"}},
+	// the same window when the stale tuple holds a unique value that a new, still unindexed file
+	// has taken over: the corruption is reported (unindexed file) and Repair fails on uniqueness
+	{"flush-of-pending-unique-move", true, []string{"insA", "flushcommit", "moveA", "insBtakes", "flushall"}},
+	// six such moves pending at once: the flush writes them in no particular order, so that (with
+	// probability 1 - 2^-6) some crash state holds a taker's file before its releaser's
+	{"flush-order-of-unique-moves", true, []string{"ins6", "flushcommit", "move6", "takers6", "flushall"}},
 }
 
 // directedStep performs one scripted step; returns the history kind.
@@ -286,6 +321,41 @@ func (w *World) directedStep(op string, objs map[string]string) string {
 		objs["B"] = y.UUID()
 		w.abs("many:updA+newB")
 		return "many"
+	case "moveA":
+		x := w.callerCopy(objs["A"])
+		x.K = 50 // its unique value 1 becomes free
+		out := w.Put(x, "update")
+		w.abs("moveA>" + out.Class)
+		return "upd"
+	case "insBtakes":
+		y := mk(2, 2)
+		y.K = 1 // the value A held
+		out := w.Insert(y)
+		objs["B"] = y.UUID()
+		w.abs("insBtakes>" + out.Class)
+		return "ins"
+	case "ins6":
+		for i := 1; i <= 6; i++ {
+			ins(fmt.Sprint("A", i), i)
+		}
+		return "ins"
+	case "move6":
+		for i := 1; i <= 6; i++ {
+			x := w.callerCopy(objs[fmt.Sprint("A", i)])
+			x.K = 50 + i
+			w.Put(x, "update")
+		}
+		w.abs("move6")
+		return "upd"
+	case "takers6":
+		for i := 1; i <= 6; i++ {
+			y := mk(10+i, 10+i)
+			y.K = i
+			w.Insert(y)
+			objs[fmt.Sprint("B", i)] = y.UUID()
+		}
+		w.abs("takers6")
+		return "ins"
 	case "delC":
 		w.Delete(objs["C"])
 		w.abs("delC")
